@@ -15,6 +15,15 @@ from concurrent.futures import ThreadPoolExecutor
 import vlib
 
 PROPS = "Properties_C12"
+# leaf functions / constants of path.c are re-translated from the C source on every run (tools/translate_leaf.py ->
+# coq/gen/Leaf.v, Constants.v) and re-proved equal to the model's (coq/Properties_leaf_path.v)
+EXTRA_PROPS = ["Properties_leaf_path"]
+
+
+def REGEN(ctx):
+    vlib.regen_leaf(ctx, ["Path"])
+
+
 RULE = ("all pairs of strings over {'/','.','a'} up to length 5 (quick) / 6 (thorough) for join and for "
         "lexically_relative, all pairs over {'/','.','a','b'} up to length 4 (quick) / 5 (thorough, relative), "
         "thorough: 2 million sampled pairs of length <= 7; every such string for preferred and for the iterator "
